@@ -18,7 +18,7 @@ FINISH = dict(level="model_checking",
                    "or one TLC-generated template document (+ overrides) read by the real EnvironmentsTemplateV1 / V2 (twice) and "
                    "Environments.from_template (text lines and file); distinct = distinct inputs")
 
-ALL_PARTS = 'Part = {"scalar", "lists", "explicit", "for", "tpl-a", "tpl-b"}'
+ALL_PARTS = 'Part = {"scalar", "lists", "explicit", "for", "registry", "tpl-a", "tpl-b"}'
 BUDGET = 400     # constructions allowed inside one call of the code under test (the largest legitimate case needs < 40)
 
 
@@ -101,32 +101,40 @@ def canon_spec(v):
     raise ValueError("unexpected expectation %r" % (v,))
 
 
-def canon_obj(o, depth=0):
-    """what the code returned -> the same canonical form"""
-    if depth > 30: return ("deeper-than-30-levels-or-cyclic",)
-    d = depth + 1
+def canon_obj(o, path=(), budget=None):
+    """what the code returned -> the same canonical form (safe on cyclic / huge results: they are marked, never followed)"""
+    budget = budget if budget is not None else [20000]
+    budget[0] -= 1
+    if budget[0] < 0: return ("more-than-20000-nodes",)
     if isinstance(o, bool): return ("bool", o)
     if isinstance(o, int): return ("int", o)
     if isinstance(o, str): return ("str", o)
     if o is None: return ("null",)
-    if isinstance(o, list): return ("lst", tuple(canon_obj(x, d) for x in o))
-    if isinstance(o, tuple): return ("tup", tuple(canon_obj(x, d) for x in o))
-    if isinstance(o, dict): return ("obj", tuple(sorted(((canon_obj(k, d), canon_obj(x, d)) for k, x in o.items()), key=repr)))
+    if id(o) in path: return ("cyclic-reference",)
+    p = path + (id(o),)
+    if isinstance(o, list): return ("lst", tuple(canon_obj(x, p, budget) for x in o))
+    if isinstance(o, tuple): return ("tup", tuple(canon_obj(x, p, budget) for x in o))
+    if isinstance(o, dict): return ("obj", tuple(sorted(((canon_obj(k, p, budget), canon_obj(x, p, budget)) for k, x in o.items()), key=repr)))
     if isinstance(o, RECORDING):
         if not hasattr(o, "args"): return ("half-built", type(o).__name__)
-        return ("made", type(o).__name__, tuple(canon_obj(x, d) for x in o.args), tuple(sorted(((k, canon_obj(x, d)) for k, x in o.kwargs.items()), key=repr)))
+        return ("made", type(o).__name__, tuple(canon_obj(x, p, budget) for x in o.args), tuple(sorted(((k, canon_obj(x, p, budget)) for k, x in o.kwargs.items()), key=repr)))
     return ("other", type(o).__name__, repr(o)[:60])
 
 
 def show(c):
     """canonical form -> short text"""
+    t = _show(c)
+    return t if len(t) <= 400 else t[:400] + " ..."
+
+
+def _show(c):
     k = c[0]
     if k in ("int", "bool"): return repr(c[1])
     if k == "str": return json.dumps(c[1])
     if k == "null": return "None"
-    if k in ("lst", "tup"): return ("[%s]" if k == "lst" else "(%s)") % ", ".join(show(x) for x in c[1])
-    if k == "obj": return "{%s}" % ", ".join("%s: %s" % (show(a), show(b)) for a, b in c[1])
-    if k == "made": return "%s(%s)" % (c[1], ", ".join([show(x) for x in c[2]] + ["%s=%s" % (a, show(b)) for a, b in c[3]]))
+    if k in ("lst", "tup"): return ("[%s]" if k == "lst" else "(%s)") % ", ".join(_show(x) for x in c[1])
+    if k == "obj": return "{%s}" % ", ".join("%s: %s" % (_show(a), _show(b)) for a, b in c[1])
+    if k == "made": return "%s(%s)" % (c[1], ", ".join([_show(x) for x in c[2]] + ["%s=%s" % (a, _show(b)) for a, b in c[3]]))
     return "<%s>" % " ".join(map(str, c))
 
 
@@ -382,6 +390,8 @@ def check_template(ctx, case, n, stats):
 class GlobalRegistry:
     """The templates construct through the global CobaRegistry: the recording classes are registered there for the
     duration of the template cases and the registry is put back exactly as it was found."""
+    def __init__(self, register=True): self.register = register
+
     def __enter__(self):
         from coba.registry import CobaRegistry
         from coba.context import CobaContext, NullLogger
@@ -390,7 +400,7 @@ class GlobalRegistry:
         self.logger = CobaContext.logger
         CobaContext.logger = NullLogger()
         CobaRegistry.registry            # loads the entry points first (as any user of the templates would)
-        for name, cls in CLASSES.items():
+        for name, cls in (CLASSES.items() if self.register else ()):
             if name in CobaRegistry._registry: raise RuntimeError("the name %r is already registered in coba" % name)
             CobaRegistry.register(name, cls)
         return self
@@ -405,11 +415,42 @@ class GlobalRegistry:
         return False
 
 
+# ---- registration ---------------------------------------------------------------------------------------------
+def check_registry(ctx, case, n, stats):
+    """a sequence of CobaRegistry.register / @coba_registration calls on the global registry (restored afterwards)"""
+    from coba.registry import CobaRegistry, coba_registration, JsonMakerV1, JsonMakerV2
+    ops = [tuple(op) for op in case["ops"]]
+    ctx.case("registry|" + json.dumps(ops))
+    with GlobalRegistry(register=False):
+        results = []
+        for i, (name, cls) in enumerate(ops):
+            stats["calls"] += 1
+            use_decorator = (i + n) % 2 == 0
+            got = call((lambda: coba_registration(name)(CLASSES[cls])) if use_decorator else (lambda: CobaRegistry.register(name, CLASSES[cls])))
+            results.append("ok" if got[0] == "ok" else "error" if got[0] == "coba" else "%s(%s)" % got[1:3])
+            if use_decorator and got[0] == "ok" and got[1] is not CLASSES[cls]: results[-1] = "decorator returned %r" % (got[1],)
+        final = {name: next((k for k, c in CLASSES.items() if c is CobaRegistry.registry.get(name)), "none") for name in case["final"]}
+        replay = dict(ops=ops, expected_results=case["results"], expected_final=case["final"])
+        if results != list(case["results"]):
+            ctx.violation("registry:register-outcome", "registrations %s: outcomes %s, expected %s" % (ops, results, case["results"]), replay)
+        elif final != case["final"]:
+            ctx.violation("registry:binding", "registrations %s: the registry binds %s, expected %s" % (ops, final, case["final"]), replay)
+        else:
+            # the makers construct through what was registered
+            for name, cls in final.items():
+                if cls == "none": continue
+                for who, fn in (("v1", lambda: JsonMakerV1(CobaRegistry.registry).make({name: 1})), ("v2", lambda: JsonMakerV2().make({name: 1}))):
+                    stats["calls"] += 1
+                    got = call(fn)
+                    if got[0] != "ok" or canon_obj(got[1]) != ("made", cls, (("int", 1),), ()):
+                        ctx.violation("registry:maker-does-not-see-registration", "%s make({%r: 1}) after registrations %s: %s, expected %s(1)" % (who, name, ops, got[:2], cls), replay)
+
+
 # ---- TLC runs ------------------------------------------------------------------------------------------------
 def runs(ctx):
     """(name, parts) per TLC invocation"""
-    if ctx.quick: return [("all", ["scalar", "lists", "explicit", "for", "tpl-a", "tpl-b"])]
-    return [("recipes", ["scalar", "explicit", "for"]), ("lists", ["lists"]), ("tpl-a", ["tpl-a"]), ("tpl-b", ["tpl-b"])]
+    if ctx.quick: return [("all", ["scalar", "lists", "explicit", "for", "registry", "tpl-a", "tpl-b"])]
+    return [("recipes", ["scalar", "explicit", "for", "registry"]), ("lists", ["lists"]), ("tpl-a", ["tpl-a"]), ("tpl-b", ["tpl-b"])]
 
 
 def run(ctx):
@@ -418,7 +459,7 @@ def run(ctx):
     stats = collections.Counter()
     makers = Makers()
     before = (dict(CobaRegistry._registry), CobaRegistry._endpoints_loaded)
-    n_rec = n_tpl = 0
+    n_rec = n_tpl = n_reg = 0
     for name, parts in runs(ctx):
         sub = {ALL_PARTS: "Part = {%s}" % ", ".join('"%s"' % p for p in parts), 'Size = "quick"': 'Size = "%s"' % ctx.tier}
         cfg = tracecheck._cfg("Recipes.cfg", sub, ctx.scratch, "recipes_%s.cfg" % name)
@@ -427,12 +468,16 @@ def run(ctx):
         for v in r.violations:
             ctx.violation("spec:%s" % (v["name"] or v["kind"]), "Recipes.tla itself violates %s" % (v["name"] or v["kind"]), v["trace"][:60])
         r.out = ""
-        cases = [j for j in r.json if isinstance(j, dict) and j.get("kind") in ("recipe", "template")]
+        cases = [j for j in r.json if isinstance(j, dict) and j.get("kind") in ("recipe", "template", "registry")]
         r.json = []
         if len(cases) < 500: raise RuntimeError("Recipes %s produced only %d cases" % (name, len(cases)))
         cases.sort(key=lambda c: json.dumps(c, sort_keys=True))
         recs = [c for c in cases if c["kind"] == "recipe"]; tpls = [c for c in cases if c["kind"] == "template"]
+        regs = [c for c in cases if c["kind"] == "registry"]
         del cases
+        for c in regs:
+            n_reg += 1
+            check_registry(ctx, c, n_reg + ctx.seed, stats)
         for c in recs:
             n_rec += 1
             check_recipe(ctx, c, makers, stats)
@@ -454,6 +499,7 @@ def run(ctx):
     ctx.traces += stats["calls"]
     ctx.extra["recipe_cases"] = n_rec
     ctx.extra["template_cases"] = n_tpl
+    ctx.extra["registration_cases"] = n_reg
     ctx.extra["outcomes"] = {k: v for k, v in sorted(stats.items())}
     ctx.assumptions += [
         "the registry holds the seven recording classes of the driver (Any, One(arg), Boom raising ValueError, iterable Rng, Src with read, Flt and Shf with filter); what a class records - its name, positional and keyword values, recursively - is the observable; keyword arguments and dict entries are compared as mappings (their order is not constrained)",
